@@ -983,6 +983,9 @@ def sym_sqrt(x):
                 return Sym(z3.RealVal(Fraction(rn, rd)))
     ex = cur() if _CUR is not None else None
     if SQRT_MODE["opaque"] or ex is None:
+        if ex is not None and z3.is_rational_value(v) and v.as_fraction() >= 0:
+            # square root of a concrete number: opaque node, but pinned down by its defining property
+            ex.assume(z3.And(_SQRT(e) >= 0, _SQRT(e) * _SQRT(e) == e))
         return Sym(_SQRT(e))
     ex.oblige("sqrt-domain", e >= 0)
     r = z3.Real(ex.fresh_name("sqrt"))
